@@ -884,6 +884,24 @@ macro_rules! run_kind {
 						// the text itself, for the extracted parser / validator and the comparison with the model's tree
 						if std::env::var("WJ_DUMP").is_ok() { eprintln!("{}", text); }
 						if text.len() <= 400_000 { out.push_str(&format!(" JT:{}", pct(&text))); } else { out.push_str(" JT:!big"); }
+						// fourth audit (M7): the public Serialize impls of Directory and DirectoryEntry start a walk of their own (fresh
+						// budget, depth 0, no renaming of type ids): the root directory and its first three entries, text for text
+						if let Ok(res) = w.resources() {
+							if let Ok(root) = res.root() {
+								match catch_unwind(AssertUnwindSafe(|| serde_json::to_string(&root))) {
+									Ok(Ok(t)) => if t.len() <= 200_000 { out.push_str(&format!(" JD:{}", pct(&t))); } else { out.push_str(" JD:!big"); },
+									Ok(Err(e)) => out.push_str(&format!(" JD:!error:{}", shorten(clean(&e.to_string())))),
+									Err(e) => out.push_str(&format!(" JD:{}", pmsg(e))),
+								}
+								for (k, e) in root.entries().take(3).enumerate() {
+									match catch_unwind(AssertUnwindSafe(|| serde_json::to_string(&e))) {
+										Ok(Ok(t)) => if t.len() <= 200_000 { out.push_str(&format!(" JE{}:{}", k, pct(&t))); } else { out.push_str(&format!(" JE{}:!big", k)); },
+										Ok(Err(e)) => out.push_str(&format!(" JE{}:!error:{}", k, shorten(clean(&e.to_string())))),
+										Err(e) => out.push_str(&format!(" JE{}:{}", k, pmsg(e))),
+									}
+								}
+							}
+						}
 						let rows = if magic == 0x20b { json_table!(pe64, pe64::$File::from_bytes(b).unwrap(), &val) } else { json_table!(pe32, pe32::$File::from_bytes(b).unwrap(), &val) };
 						for (k, jv, av) in rows {
 							out.push_str(&format!(" J:{}={}~{}", k, jv, av));
